@@ -7,6 +7,7 @@ import (
 	"strconv"
 	"strings"
 	"sync"
+	"sync/atomic"
 
 	"github.com/bytedance/sonic"
 	"github.com/bytedance/sonic/ast"
@@ -266,13 +267,30 @@ func c16Case(c *Ctx, i int, r *gen.Rng) {
 	yield := r.Bool()
 	start := make(chan struct{})
 	var wg sync.WaitGroup
+	// Overlap bookkeeping (evidence of what was actually interleaved). Only in builds without the
+	// race detector: atomic operations are synchronisation to the detector and would order the
+	// readers' accesses, hiding the very races it is there to report.
+	observe := c.Mode != "race"
+	var inflight, overlapped, done, firstBeforeAnyDone int32
 	for g := 0; g < G; g++ {
 		wg.Add(1)
 		go func(g int) {
 			defer wg.Done()
 			<-start
-			for _, k := range orders[g] {
+			for n, k := range orders[g] {
+				if observe {
+					if atomic.AddInt32(&inflight, 1) > 1 {
+						atomic.AddInt32(&overlapped, 1)
+					}
+					if n == 0 && atomic.LoadInt32(&done) == 0 {
+						atomic.AddInt32(&firstBeforeAnyDone, 1)
+					}
+				}
 				got[g][k] = c16Run(&shared, ops[k])
+				if observe {
+					atomic.AddInt32(&inflight, -1)
+					atomic.AddInt32(&done, 1)
+				}
 				if yield {
 					runtime.Gosched()
 				}
@@ -281,6 +299,12 @@ func c16Case(c *Ctx, i int, r *gen.Rng) {
 	}
 	close(start)
 	wg.Wait()
+	if observe {
+		c.Count("reads_that_overlapped_another_read_of_the_same_node", int64(overlapped))
+		if firstBeforeAnyDone >= 2 {
+			c.Count("nodes_whose_first_reads_by_2+_goroutines_started_before_any_read_finished", 1)
+		}
+	}
 	for k, op := range ops {
 		for g := 0; g < G; g++ {
 			if got[g][k] != want[k] {
